@@ -17,6 +17,8 @@ for sid in sorted(os.listdir(root)):
     for c, r in sorted(checks.items()):
         if r["caught"]:
             verdicts.append("%s: caught (%s)" % (c, "failing input" if r["with_failing_input"] else "no-failing-input-found"))
+        elif c != sid.split("-")[0]:
+            verdicts.append("%s: silent (another property's check, run for information)" % c)
         else:
             verdicts.append("%s: MISSED" % c)
     files = ", ".join(sorted({os.path.basename(f) for f in meta.get("files_changed", [])}))
